@@ -67,7 +67,7 @@ PROPS = {
                           "is proved elementwise to be the rows [c0,c1) then [c2,c3) of X). optimal<=fixed and split inequality for the Gaussian "
                           "costs: bounded only.",
             "level_note": "interface contract of user costs assumed; sktime clone/set_params assumed; floats as reals"},
-    "C07": {"category": "proof", "driver": "C07", "claimed": True,
+    "C07": {"category": "proof", "driver": "C07", "claimed": True, "lemmas": ["L_greedy_mono"],
             "technique": "contract-based deductive verification of make_seeded_intervals, run_seeded_binseg and greedy_changepoint_selection "
                          "(loop invariants with ghost selection witnesses, z3/cvc5) + bounded comparison with a reference greedy incl. table scores",
             "level_text": "Proved for all inputs: candidate intervals inside [0,n] with lengths in [2m, min(M,n)] and non-empty for n>=2m; per-interval "
@@ -76,7 +76,8 @@ PROPS = {
                           "interval contains a changepoint, spacing >= m; and 'exactly the greedy sequence': with the pick order = the order before the final "
                           "sort, each changepoint is the maximiser of an interval (skolem witness WIT) that scores above the threshold and at least as high as "
                           "every interval not containing an earlier pick (first maximum on ties) - greedy_changepoint_selection and run_seeded_binseg. "
-                          "Threshold monotonicity (a relation between two runs): bounded (reference greedy, all threshold pairs).",
+                          "Threshold monotonicity (a relation between two runs): lemma L_greedy_mono over the posts `greedy` and `exhaustive` of two runs with "
+                          "t1 <= t2 (strong induction on the pick time: run 2's picks are a prefix of run 1's) + bounded (reference greedy, all threshold pairs).",
             "level_note": "np.geomspace/round/unique/ceil/log assumed contracts; termination of the greedy loop not proved; threshold formula under C15"},
     "C08": {"category": "proof", "driver": "C08", "claimed": True,
             "technique": "contract-based deductive verification of moving_window_transform, where and get_moving_window_changepoints "
@@ -86,7 +87,7 @@ PROPS = {
                           "changepoints are the first positions of the maximum within each maximal above-threshold run of length >= "
                           "min_detection_interval, and nothing else. Time-reversal consequence: bounded.",
             "level_note": "scorer interface assumed; floats as reals; MovingWindow class glue (pandas) bounded"},
-    "C09": {"category": "proof", "driver": "C09", "claimed": True,
+    "C09": {"category": "proof", "driver": "C09", "claimed": True, "lemmas": ["L_greedy_mono"],
             "technique": "contract-based deductive verification of make_anomaly_intervals, run_circular_binseg and greedy_anomaly_selection "
                          "(z3/cvc5) + bounded comparison with a reference greedy incl. table scores",
             "level_text": "Proved for all inputs: make_anomaly_intervals returns exactly the admissible inner intervals (both inclusions); per-candidate "
@@ -94,7 +95,8 @@ PROPS = {
                           "set), the scores-table columns hold the attaining inner interval; greedy selection: supported, exhaustive, pairwise "
                           "disjoint, strictly inside the data, length >= m; and 'exactly the greedy sequence' (pick order = order before the final sort; each anomaly "
                           "is the listed inner interval of a candidate - skolem witness WIT - scoring above the threshold and at least as high as every candidate "
-                          "not overlapping an earlier pick, first maximum on ties): greedy_anomaly_selection and run_circular_binseg. Threshold monotonicity: bounded.",
+                          "not overlapping an earlier pick, first maximum on ties): greedy_anomaly_selection and run_circular_binseg. Threshold monotonicity: "
+                          "lemma L_greedy_mono over the posts of two runs (as for C07) + bounded.",
             "level_note": "local-anomaly-score interface assumed for user scores (the built-in LocalAnomalyScore adapter is proved under C06); termination of the greedy loop "
                           "not proved"},
     "C10": {"category": "proof", "driver": "C10", "claimed": True,
